@@ -5,7 +5,7 @@
    (Generated/ExpGramConstants.v). *)
 From Coq Require Import List Arith Bool ZArith QArith Qcanon.
 From PD Require Import Base.Field Base.Matrix Base.Solve Model.Gauss Model.Prior Model.ExpGram
-  Generated.ExpGramConstants Run.Show Run.GenRun.
+  Generated.ExpGramConstants Run.Show.
 Import ListNotations.
 Local Close Scope Qc_scope.
 Local Close Scope Q_scope.
@@ -16,6 +16,14 @@ Section ExpGramRun.
   Local Open Scope F_scope.
   Local Notation mat := (@mat F).
   Local Notation vec := (@vec F).
+
+  (* same encodings as Run/GenRun.v (not imported: it would tie this file to Model/Solver.v) *)
+  Definition flat_mat (n m : nat) (A : mat) : list F :=
+    flat_map (fun i => map (mget A i) (seq 0 m)) (seq 0 n).
+  (* a conditional is reported in PLAIN form (after preconditioner_apply) *)
+  Definition enc_cond (nin nout c : nat) (K : @cond F) : list F :=
+    let P := c_plain nin nout c K in
+    flat_mat nout nin (c_A P) ++ flat_mat nout c (c_b P) ++ flat_mat nout nout (c_Q P).
 
   Definition fQ (x : Q) : F := fZ (Qnum x) / fpos (Qden x).
   Definition tableQ (p : nat) (b : list Q) (C : list (list Q)) (nr : list Q) : @pl_table F :=
